@@ -11,8 +11,38 @@ import (
 	"flag"
 	"fmt"
 	"os"
+	"runtime"
 	"runtime/debug"
+	"sync/atomic"
+	"time"
 )
+
+// scnCounter counts scenarios started; the watchdog ends the process when one scenario runs for too long or
+// the heap explodes (a library call that does not return): the orchestrator then records the unfinished
+// scenario as crashed and restarts after it.
+var scnCounter int64
+
+func watchdog() {
+	limit := 30 * time.Second
+	if v := os.Getenv("VERIF_SCN_TIMEOUT"); v != "" {
+		if d, err := time.ParseDuration(v); err == nil {
+			limit = d
+		}
+	}
+	last, since := int64(-1), time.Now()
+	var ms runtime.MemStats
+	for {
+		time.Sleep(50 * time.Millisecond)
+		if c := atomic.LoadInt64(&scnCounter); c != last {
+			last, since = c, time.Now()
+		}
+		runtime.ReadMemStats(&ms)
+		if time.Since(since) > limit || ms.HeapAlloc > 3<<30 {
+			fmt.Fprintf(os.Stderr, "watchdog: scenario did not return (%.0fs, heap %d MB)\n", time.Since(since).Seconds(), ms.HeapAlloc>>20)
+			os.Exit(3)
+		}
+	}
+}
 
 func main() {
 	if len(os.Args) < 2 {
@@ -34,11 +64,13 @@ func main() {
 	w := bufio.NewWriterSize(os.Stdout, 1<<20)
 	defer w.Flush()
 	master := newRng(*seed)
+	go watchdog()
 	for i := 0; i < *start+*n; i++ {
 		r := master.fork()
 		if i < *start {
 			continue
 		}
+		atomic.AddInt64(&scnCounter, 1)
 		switch fam {
 		case "gops":
 			genGops(w, r, i, *size*5, *size, *opt != "invalid")
